@@ -40,6 +40,7 @@ def opSet (op : RangeOp) (s : Pfx → Prop) : Pfx → Prop := fun q =>
 def leafSet (db : Db) : RsLeaf → Pfx → Prop
   | .pfx p op => opSet op (· = p)
   | .asn a => Routes db a
+  | .junk _ => fun _ => False     -- a word that is no prefix denotes nothing
 
 def denoteNamed (db : Db) : Named → Pfx → Prop
   | .rsAny => fun _ => True
